@@ -16,7 +16,8 @@ RULE = ("integer-coordinate tree sequences: msprime (recombining; Kingman/Beta/D
         "ON tree breakpoints / piece boundaries, "
         "several per site); tied node times; ~40% of the inputs decorated by gen.exotic (extra flag bits incl. an "
         "already-set NODE_SPLIT_BY_PREPROCESS, ALL nodes renumbered, root mutations, mutation-free sites incl. "
-        "num_sites == num_mutations, arbitrary states, populations); a tree sequence without edges; x node metadata "
+        "num_sites == num_mutations, arbitrary states, populations); a tree sequence without edges; 35% of the inputs with chromosome-scale integer coordinates (breakpoints "
+        "next to 2^24, 2^25, 2^31, 1e8, 3e8; gaps of 1-8 bp between a node's pieces); x node metadata "
         "none / permissive JSON. Non-trivial = at least one node is split")
 ASSUME = ["tskit: tables.sort / build_index / compute_mutation_parents / Tree API / genotype_matrix",
           "integer genomic coordinates in the correspondence; the theorems are about the model over Z",
@@ -203,7 +204,7 @@ def with_json_metadata(ts):
 
 
 def make_item(rng):
-    ts, kind = S.any_ts(rng, diploid=rng.random() < 0.2, mutations=True, max_edges=100)
+    ts, kind = S.any_ts(rng, diploid=rng.random() < 0.2, mutations=True, max_edges=100, stretch=0)
     r = rng.random()
     if r < 0.35 and int(ts.sequence_length) >= 3:
         ts = S.delete_interval(rng, ts, flank="mid")
@@ -212,6 +213,9 @@ def make_item(rng):
     if ts.num_mutations and rng.random() < 0.35:
         ts = S.site_mutation_coincidence(rng, ts)      # num_sites == num_mutations, map not one-to-one
         kind += "+sites=muts"
+    if rng.random() < 0.35:
+        ts = S.stretch_coords(rng, ts)                 # chromosome-scale coordinates, 1-8 bp gaps
+        kind += "+stretch"
     jsonmd = rng.random() < 0.3
     if jsonmd:
         ts = with_json_metadata(ts)
